@@ -62,6 +62,7 @@ type Task struct {
 	Panic      any
 	PanicStack string
 	releases   int
+	goSeq      int // ordinal among the tasks started by go statements (1-based; 0: not one)
 	pendingW   bool      // blocked inside a write Lock (tried it, found it taken)
 	firstAcq   time.Time // instant of the first lock acquisition since MarkOp (zero: none yet)
 }
@@ -83,6 +84,11 @@ type Policy struct {
 	Mute       string  `json:"mute"`        // yield classes that do not park, e.g. "R6,R7"
 	MapPerm    bool    `json:"map_perm"`    // permute map iteration order (seeded) instead of canonical order
 	PCTDepth   int     `json:"pct_depth"`
+	// DelayTask > 0: the DelayTask-th task started by a go statement is held back from its DelayAt-th
+	// release on: it runs only when nothing else can (a notification handler that has read the
+	// setting and gets to apply it after everybody else). Works on top of any Kind.
+	DelayTask int `json:"delay_task,omitempty"`
+	DelayAt   int `json:"delay_at,omitempty"`
 	Overlap    int     `json:"overlap,omitempty"` // race mode: release up to this many eligible tasks in one step
 	MaxSteps   int     `json:"max_steps"`
 	IdleLimit  int     `json:"idle_limit"` // consecutive idle sleeps with no foreground progress => stuck
@@ -97,6 +103,7 @@ type Sched struct {
 	locks      map[any]*lockState
 	parkNotify chan struct{}
 	siteCount  map[string]int
+	goSeq      int
 	mapCount   map[string]int
 	draining   atomic.Bool
 	killOnPark atomic.Bool
@@ -574,7 +581,11 @@ func Go(site string, fn func()) {
 	s.siteCount[site] = n + 1
 	s.mu.Unlock()
 	name := fmt.Sprintf("go:%s#%d", site, n)
-	s.spawn(name, true, fn)
+	gt := s.spawn(name, true, fn)
+	s.mu.Lock()
+	s.goSeq++
+	gt.goSeq = s.goSeq
+	s.mu.Unlock()
 	// starting a goroutine is a point where the scheduler may switch (e.g. between the
 	// deliveries of one Fire); set-up code outside any task just goes on
 	if t := s.cur(); t != nil && !s.muted["R3"] {
@@ -1009,6 +1020,17 @@ func (s *Sched) fallback(elig []*Task) *Task {
 }
 
 func (s *Sched) choose(elig []*Task) *Task {
+	if s.pol.DelayTask > 0 && len(elig) > 1 {
+		var rest []*Task
+		for _, t := range elig {
+			if !(t.goSeq == s.pol.DelayTask && t.releases >= s.pol.DelayAt) {
+				rest = append(rest, t)
+			}
+		}
+		if len(rest) > 0 {
+			elig = rest
+		}
+	}
 	switch s.pol.Kind {
 	case "sticky":
 		if s.lastTask != nil {
